@@ -378,10 +378,55 @@ def _ann_kind(ann):
     s = ast.unparse(ann).replace('"', "").replace("'", "")
     if s.startswith(("Set[", "set[", "FrozenSet[", "AbstractSet[")):
         inner = s[s.index("[") + 1:-1]
-        if inner in ("int", "bool", "TealerTransactionType", "TransactionType", "IndexType", "ExecutionMode", "DetectorType"):
+        if inner in ("int", "bool") or inner in STABLE_ENUMS:
             return "stable"
         return "unstable"
     return None
+
+
+STABLE_ENUMS = set()     # enumeration classes whose members hash to integers (computed by enum_hash_stability on every run)
+
+
+def enum_hash_stability(ctx):
+    """{enum class name: True if the hash of its members does not depend on the interpreter's hash seed}.  A plain enum.Enum hashes the
+    member's *name* (a string: seed-dependent); a class that defines __hash__ is judged by what it hands to hash(): evaluated on every member"""
+    from ..absint import ClassV, PyRaise, Unsupported, EnumMember
+    w = ctx.world
+    out = {}
+    for modname, tree in ctx.trees.items():
+        for st in tree.body:
+            if not isinstance(st, ast.ClassDef):
+                continue
+            try:
+                cls = w.module(modname).lookup(st.name)
+            except (KeyError, Unsupported):
+                continue
+            if not (isinstance(cls, ClassV) and cls.is_enum()):
+                continue
+            names = cls.enum_member_names()
+            if any(e.split(".")[-1] in ("IntEnum", "IntFlag") for e in cls.ext_bases()):
+                out[cls.name] = True
+                continue
+            c, hm = cls.dunder("__hash__")
+            if hm is None:
+                out[cls.name] = not names     # enum.Enum.__hash__ is hash(self._name_)
+                continue
+            stable = True
+            for nm in names:
+                m = w.getattr(cls, nm)
+                w.hash_probe = []
+                try:
+                    m.__dict__.pop("_hash", None)
+                    m._call("__hash__")
+                except (PyRaise, Unsupported):
+                    stable = False
+                kinds = list(w.hash_probe)
+                w.hash_probe = None
+                m.__dict__.pop("_hash", None)
+                if not kinds or any(k not in ("int", "bool", "Term") for k in kinds):
+                    stable = False
+            out[cls.name] = stable
+    return out
 
 
 STR_METHODS = {"strip", "lstrip", "rstrip", "lower", "upper", "title", "format", "join", "replace", "capitalize", "removeprefix", "removesuffix"}
@@ -533,6 +578,11 @@ def rule_hash_order(ctx, rep):
     fx = ast.parse("def f(ctx, s: Set[str]):\n    ctx.possible_addr = list(s - set(['A']))\n    ctx.x = sorted(s)\n")
     rep.require(len(order_sites(fx)) == 1, "E-ORDER does not recognise its positive fixture")
     n = 0
+    stab = enum_hash_stability(ctx)
+    STABLE_ENUMS.clear()
+    STABLE_ENUMS.update(k for k, v in stab.items() if v)
+    rep.note("enumerations whose members hash to integers: " + ", ".join(sorted(STABLE_ENUMS)) + "; by name (seed-dependent): " + ", ".join(sorted(k for k, v in stab.items() if not v)))
+    rep.require(len(stab) >= 4, f"only {len(stab)} enumeration classes found")
     _STR_ATTRS.clear()
     _STR_ATTRS.update(str_class_attrs(ctx.trees))
     fx3 = ast.parse("def h(ds, ex):\n    sel = {d.NAME for d in ds} - {x.strip() for x in ex}\n    return [ds[n] for n in sel]\n")
@@ -580,6 +630,36 @@ def rule_hash_order(ctx, rep):
                               "the order of the stored list changes with the interpreter's hash seed")
             else:
                 rep.ok(rule, {"site": f"{modname}:{fn.name}", "expr": ast.unparse(node)[:60], "elements": kind, "observable": observable, "sorted": wrapped_sorted, "worklist": worklist})
+    # lists of enumeration members stored in attributes: when the members hash by name, the order of a list built from a set of them
+    # follows the hash seed; such a list has to be sorted before it is stored
+    enum_attrs = {}
+    # which attributes of a block context hold lists of enumeration members: read off a freshly constructed context
+    from ..absint import EnumMember as _EM
+    BTC = ctx.world.cls("tealer.teal.context.block_transaction_context", "BlockTransactionContext")
+    fresh = ctx.world.new(BTC)
+    for attr, val in fresh.fields.items():
+        if isinstance(val, list) and val and all(isinstance(x, _EM) for x in val):
+            enum_attrs[attr.lstrip("_")] = {x.cls.name for x in val}
+    rep.require("transaction_types" in enum_attrs, f"no attribute holding a list of enumeration members found ({sorted(enum_attrs)})")
+    for modname, tree in ctx.trees.items():
+        for node in ast.walk(tree):
+            if not (isinstance(node, ast.Assign) and len(node.targets) == 1 and isinstance(node.targets[0], ast.Attribute)):
+                continue
+            attr = node.targets[0].attr.lstrip("_")
+            if attr not in enum_attrs:
+                continue
+            v = node.value
+            builds_list = (isinstance(v, ast.Call) and isinstance(v.func, ast.Name) and v.func.id in ("list", "tuple")) or isinstance(v, ast.ListComp)
+            if not builds_list:
+                continue
+            n += 1
+            bad = sorted(e for e in enum_attrs[attr] if not stab.get(e, True))
+            if bad:
+                rep.violation(rule, f"{modname}: {ast.unparse(node.targets[0])[:50]} = {ast.unparse(v)[:40]}", f"{ctx.path(modname)}:{node.lineno}",
+                              f"members of {', '.join(bad)} hash by name", "members that hash to integers, or sorted(...)",
+                              "the order of the stored list changes with the interpreter's hash seed")
+            else:
+                rep.ok(rule, {"site": modname, "stores": attr, "elements": sorted(enum_attrs[attr]), "hash": "integer"})
     ak = attr_elem_kinds(ctx.trees)
     fx2 = ast.parse("def g(ins, labels):\n    for l in set(ins.labels):\n        ins.add_next(labels[l])\n    for l in ins.labels:\n        ins.add_next(labels[l])\n")
     rep.require(len(order_loops(fx2, {"labels": "unstable"})) == 1, "E-ORDER(loop) does not recognise its positive fixture")
